@@ -93,6 +93,12 @@ type c22Res struct {
 }
 
 func c22Run(hist []string, pairs bool, unsynced int) c22Res {
+	return c22RunX(hist, pairs, unsynced, false)
+}
+
+// innerOnly: only the "hole followed by intact later bytes" images, zero fill (whole entries
+// lost while a later entry reached the disk)
+func c22RunX(hist []string, pairs bool, unsynced int, innerOnly bool) c22Res {
 	hookMu.Lock()
 	defer hookMu.Unlock()
 	var r c22Res
@@ -128,18 +134,23 @@ func c22Run(hist []string, pairs bool, unsynced int) c22Res {
 			r.viol = append(r.viol, [2]string{kind, fmt.Sprintf("%s: store opened with {%s}, which no prefix of the history produces (prefix states: %s)", desc, s, strings.Join(l.models, " | "))})
 		}
 	}
-	for t := start; t <= n; t++ {
+	for t := start; t <= n && !innerOnly; t++ {
 		judge("truncated", l.data[:t], fmt.Sprintf("log (%d bytes, synced up to %d) truncated at byte %d", n, start, t))
 	}
 	if pairs {
 		for _, fill := range []byte{0x00, 0xFF} {
+			if innerOnly && fill != 0x00 {
+				continue
+			}
 			for s := start; s < n; s++ {
 				for t := s + 1; t <= n; t++ {
 					c := append([]byte(nil), l.data[:t]...)
 					for i := s; i < t; i++ {
 						c[i] = fill
 					}
-					judge(fmt.Sprintf("hole-%02x", fill), c, fmt.Sprintf("log (%d bytes, synced up to %d) cut at %d with [%d,%d) = 0x%02X", n, start, t, s, t, fill))
+					if !innerOnly {
+						judge(fmt.Sprintf("hole-%02x", fill), c, fmt.Sprintf("log (%d bytes, synced up to %d) cut at %d with [%d,%d) = 0x%02X", n, start, t, s, t, fill))
+					}
 					if t < n {
 						// blocks persisted out of order: the hole is followed by intact later bytes
 						c2 := append([]byte(nil), l.data...)
@@ -172,6 +183,14 @@ func c22(c *report.Check) {
 		}
 		r1 := c22Run(h, false, 2)
 		r2 := c22Run(h, true, unsyncedPairs)
+		if !c.Thorough() && len(h) <= 2 {
+			// short histories: zeroed holes anywhere in the last TWO entries with the rest intact
+			r3 := c22RunX(h, true, 2, true)
+			r2.images += r3.images
+			r2.opened += r3.opened
+			r2.refused += r3.refused
+			r2.viol = append(r2.viol, r3.viol...)
+		}
 		j := c20JSON{Hist: h, Images: r1.images + r2.images, Recoveries: r1.opened + r2.opened, Rejected: r1.refused + r2.refused, FsOps: r2.window}
 		seen := map[string]bool{}
 		for _, v := range append(r1.viol, r2.viol...) {
